@@ -741,8 +741,9 @@ def surrogate_spelled(t):
 # ------------------------------------------------------------------------------------------------ full model: tables + ALL semantic actions
 # coq/C06/Actions.v: parse_full = the loop of Parser::parse over the regenerated tables with the 90 reduce actions of parser.rs on the node stack.
 # Tokens carry the lexer's TokenValue; texts (names, digit strings, string contents, type names) are interned as numbers.
-HEADER_ACT = ('From Coq Require Import List NArith ZArith Bool String.\nFrom DV Require Import Gen.LalrTables C06.Actions.\nImport ListNotations.\n'
-              'Open Scope Z_scope.\nDefinition k (t : Z) : ftok := (t, VTok t).\n')
+HEADER_ACT = ('From Coq Require Import List NArith ZArith Bool String.\nFrom DV Require Import Gen.LalrTables C06.Actions C06.ActionsKinds C06.ActionsAutomaton.\n'
+              'Import ListNotations.\nOpen Scope Z_scope.\nDefinition k (t : Z) : ftok := (t, VTok t).\n'
+              'Definition pt (toks : list ftok) := (parse_trace toks, forallb tok_okb toks).\n')
 TYPE_NAMES = ('number', 'string', 'boolean', 'date', 'Any')
 KW_TOK_MORE = {'list': 'List', 'range': 'Range', 'context': 'Context', 'external': 'External', '->': 'RightArrow'}
 START_TOK = {'expr': 'StartExpression', 'unary': 'StartUnaryTests', 'textual': 'StartTextualExpression', 'textuals': 'StartTextualExpressions',
@@ -990,20 +991,23 @@ def actions_section(ctx, cases, impl):
         term = full_tokens(c['toks'], c['mode'], atoms_of(c['tree']), texts)
         if term:
             idx.append(i)
-            terms.append('parse_trace %s' % term)
+            terms.append('pt %s' % term)
     directed = []
     for mode, spec in DIRECTED:
         toks = spec_tokens(spec)
         term = full_tokens(toks, mode, DIRECTED_ATOMS, texts)
         directed.append({'text': ' '.join(x[0] for x in toks), 'mode': mode, 'term': term})
-        terms.append('parse_trace %s' % term)
+        terms.append('pt %s' % term)
     res = ctx.run_model(HEADER_ACT, terms, shard_size=120, tag='act')
     dgot = ctx.run_impl('ast', [{'bind': BIND, 'e': d['text'], 'mode': d['mode']} for d in directed])
     names = rule_action_names()
     seen, internal, disagree, checked, kinds = set(), 0, [], 0, {}
 
+    lexer_shaped = [0]
+
     def outcome(r):
-        fres, trace = r
+        fres, trace, okb = r          # ((a, b), c) is printed (a, b, c)
+        lexer_shaped[0] += 1 if okb else 0
         for x in trace:
             if x in names:
                 seen.add(names[x])
@@ -1041,7 +1045,11 @@ def actions_section(ctx, cases, impl):
             ctx.nontrivial.add(d['text'])
     missing = sorted(set(names.values()) - seen)
     cov = {'actions_model_compared': checked, 'actions_model_by_kind': kinds, 'actions_exercised': '%d of %d' % (len(seen), len(set(names.values()))),
-           'actions_not_exercised': missing, 'actions_model_internal_failures': internal, 'actions_model_disagreements': len(disagree)}
+           'actions_not_exercised': missing, 'actions_model_internal_failures': internal, 'actions_model_disagreements': len(disagree),
+           'token_lists_meeting_the_hypothesis_of_C06_parse_full_safe': '%d of %d' % (lexer_shaped[0], checked)}
+    if lexer_shaped[0] != checked:
+        ctx.broken.append('the tokeniser of the check produced %d token list(s) that are not lexer-shaped (tok_okb false): the hypothesis of '
+                          'C06_parse_full_safe does not cover them' % (checked - lexer_shaped[0]))
     return cov, disagree
 
 
@@ -1264,7 +1272,7 @@ def run(ctx):
     ctx.build_harness()
     if not ok:
         # a proof broke and make stopped: the proof-free model files are still needed by the evaluations below
-        ctx.coq_make(['-k', 'C06/Model.vo', 'C06/Lr.vo', 'C06/Actions.vo', 'C06/ActionsKinds.vo'])
+        ctx.coq_make(['-k', 'C06/Model.vo', 'C06/Lr.vo', 'C06/Actions.vo', 'C06/ActionsKinds.vo', 'C06/ActionsAutomaton.vo'])
     if not ok and any('TablesProofs' in b or 'proof-gate' in b for b in ctx.broken):
         try:
             tables_replay(ctx)
@@ -1282,6 +1290,18 @@ def run(ctx):
                                  % (gf, af, ['%d (%s)' % (r, names.get(r, 'no action')) for r in bad]))
         except Exception as e:
             ctx.notes.append('rule typing not evaluated: %r' % (e,))
+        # ... and which of the finite checks on the automaton read off the tables fails (coq/C06/ActionsAutomaton.v, no proofs)
+        try:
+            names_ = ['closed under the moves of the driver with every right-hand side found on every path', 'symbols in front of mid-rule actions found',
+                      'states in range', 'final state on top of feel $end', 'nodes consumed from below are there', 'terminals have no stack effect',
+                      'rules named through the symbol numbers', 'start / end symbols', 'effects uniform']
+            vals_ = ctx.run_model('From Coq Require Import List ZArith String.\nFrom DV Require Import C06.ActionsKinds C06.ActionsAutomaton.\nImport ListNotations.\n',
+                                  ['[closed auto; ctx_closed auto; in_range_t auto; final_ok auto; pre_ok auto; terminals_plain; rules_named; ends_ok; sigs_uniform]'], tag='auto')[0]
+            bad_ = [n for n, v in zip(names_, vals_) if not v]
+            if bad_:
+                ctx.broken.append('automaton read off the regenerated tables (coq/C06/ActionsAutomaton.v): failing finite checks: %s' % '; '.join(bad_))
+        except Exception as e:
+            ctx.notes.append('automaton checks not evaluated: %r' % (e,))
     cases = gen_cases(ctx)
     # model side: for the trees of the operator fragment the Coq renderer and parser give the token lists and the tree after a removal
     frag_idx = {}
@@ -1465,5 +1485,5 @@ def replay(ctx, path):
 
 MANIFEST = dict(
     technique='Coq proof (round trip of a precedence-climbing Spec parser for all trees; finite theorem on the LALR tables regenerated from lalr.rs every run) with parser/model correspondence',
-    text='coq/Props/C06.v: the committed LALR tables, translated from feel-parser/src/lalr.rs on every run, are proved (vm_compute, bound stated) to build on every ordered pair and triple of operators the tree the Spec parser dictates; the Spec theorems hold for all trees of the operator fragment (no bound): both renderings round-trip (C06_roundtrip_*_tokens), and every pair of parentheses of the minimal rendering is needed (C06_needed_paren / C06_needed_paren_at / C06_all_needed, from the counting soundness invariant C06_min_rendering_minimal: any token list that parses to t has at least the parentheses of render_min t); string-literal decoding has its own model. Text level (coq/C06/Lexer.v = model of Lexer::next_token iterated with its four flags; C06_lex_unlex[_layout]: it reads back every printable token list from the printed text, one space or any layout of the modelled grammar between tokens; C06_text_roundtrip_min/full[_layout]: parse_text = lexer model + Spec parser gives the tree back from the TEXT of both renderings, for all trees outside the known finding between-lower-bound-and, C06_text_between_lower_and_refuted for that class); the token stream of the real lexer (hook verif_tokens, dv tokens) is compared with the model token by token (kind, value, position, flags) on printable lists in every layout, every token kind x every white space character / comment, and adversarial glued texts with explicit flag settings. The real lexer, driver and actions are tied to the Spec by parsing generated trees of the whole language in minimal / full / one-pair-removed renderings under token-preserving layouts and comparing AstNode trees. coq/C06/Actions.v models the whole parser on token lists (the loop of Parser::parse over the regenerated tables with all 90 reduce actions of parser.rs, selected by the action names read from lalr.rs): every generated case of every construct and directed inputs for types, external bodies, date and time literals and the six entry points are run through it and compared node by node with the real parser. C06_actions_stack_safe: for every rule of feel.y (read with the tables on every run) the action of the rule, on every concrete node stack whose top has the kinds the right-hand side symbols are declared to leave, returns Ok and leaves what the left-hand side declares (no pop error, no index panic, no dropped node; abstract actions on node kinds proved sound for all stacks + sweep over the 150 rules); C06_list_roundtrip / C06_nested_lists_roundtrip: lists of every length and nesting round-trip through parse_full (induction through the list_tail actions over the regenerated tables).',
-    note='Trusted: Coq kernel + vm_compute, lalr2coq.py, the Spec reading of feel.y lines 73-90, harness dv ast, Python renderer for binders/collections (not covered by the Spec theorems), the reading of feel.y by lalr2coq.py (checked against YY_R1/YY_R2 and the reduce arms in Coq), the declared stack effects of the grammar symbols (checked by the sweep), the Python tokeniser feeding the full model. Not formalised: the LR-automaton invariant that would lift stack safety from rules to whole parses.')
+    text='coq/Props/C06.v: the committed LALR tables, translated from feel-parser/src/lalr.rs on every run, are proved (vm_compute, bound stated) to build on every ordered pair and triple of operators the tree the Spec parser dictates; the Spec theorems hold for all trees of the operator fragment (no bound): both renderings round-trip (C06_roundtrip_*_tokens), and every pair of parentheses of the minimal rendering is needed (C06_needed_paren / C06_needed_paren_at / C06_all_needed, from the counting soundness invariant C06_min_rendering_minimal: any token list that parses to t has at least the parentheses of render_min t); string-literal decoding has its own model. Text level (coq/C06/Lexer.v = model of Lexer::next_token iterated with its four flags; C06_lex_unlex[_layout]: it reads back every printable token list from the printed text, one space or any layout of the modelled grammar between tokens; C06_text_roundtrip_min/full[_layout]: parse_text = lexer model + Spec parser gives the tree back from the TEXT of both renderings, for all trees outside the known finding between-lower-bound-and, C06_text_between_lower_and_refuted for that class); the token stream of the real lexer (hook verif_tokens, dv tokens) is compared with the model token by token (kind, value, position, flags) on printable lists in every layout, every token kind x every white space character / comment, and adversarial glued texts with explicit flag settings. The real lexer, driver and actions are tied to the Spec by parsing generated trees of the whole language in minimal / full / one-pair-removed renderings under token-preserving layouts and comparing AstNode trees. coq/C06/Actions.v models the whole parser on token lists (the loop of Parser::parse over the regenerated tables with all 90 reduce actions of parser.rs, selected by the action names read from lalr.rs): every generated case of every construct and directed inputs for types, external bodies, date and time literals and the six entry points are run through it and compared node by node with the real parser. C06_actions_stack_safe: for every rule of feel.y (read with the tables on every run) the action of the rule, on every concrete node stack whose top has the kinds the right-hand side symbols are declared to leave, returns Ok and leaves what the left-hand side declares (no pop error, no index panic, no dropped node; abstract actions on node kinds proved sound for all stacks + sweep over the 150 rules); C06_parse_full_safe lifts this to whole parses: on every list of lexer-shaped tokens (token value = the one of the terminal; the check evaluates this test on every token list it feeds to the model) the parser model never raises a pop error, never indexes out of bounds, never accepts with other than one node -- by an invariant over the LR automaton read off the regenerated tables (transitions closed under the moves of the driver; the right-hand side of every reducible rule found on every path: the LR invariant as a finite check). C06_list_roundtrip / C06_nested_lists_roundtrip: lists of every length and nesting round-trip through parse_full (induction through the list_tail actions over the regenerated tables).',
+    note='Trusted: Coq kernel + vm_compute, lalr2coq.py, the Spec reading of feel.y lines 73-90, harness dv ast, Python renderer for binders/collections (not covered by the Spec theorems), the reading of feel.y by lalr2coq.py (checked against YY_R1/YY_R2 and the reduce arms in Coq), the declared stack effects of the grammar symbols (checked by the sweep), the Python tokeniser feeding the full model. The grammar names of the terminals are the TokenType names in upper snake case (a wrong name fails the finite automaton check).')
